@@ -99,7 +99,10 @@ def run(ctx):
             for x in w:
                 st = trans.get((st, x), [-1])[0] if st >= 0 else -1
             real = match(pat.to_expression(t), list(w)) is not None
-            if ((st in acc) != real) or (real != pat.ref_match(t, w)):
+            if real != pat.ref_match(t, w):      # a concrete disagreement with the reference semantics is a violation in its own right
+                ctx.violation(f"E2:match:{pat.show(t)}", f"pattern {pat.show(t)} word {w}: match={real}, reference {pat.ref_match(t, w)} (found while validating the DFA translation)", {"pattern": t, "word": list(w)})
+                continue
+            if (st in acc) != real:
                 ctx.harness_error("E2-translator", f"DFA table of {pat.show(t)} disagrees with real match on {w}")
                 return
     for t in trees:
